@@ -198,3 +198,46 @@ Fixpoint last_opt {A : Type} (l : list A) : option A :=
 
 (* no nested dictionaries *)
 Definition flat (d : pydict) : Prop := forall k v, In (k, v) d -> forall d', v <> VDict d'.
+
+(* ---- round 3: the STORED state of the probe-params setter, assigned several times.
+   probe_models.ProbeBase.probe_params:
+       params["aberration_coefs"] = set_aberrations(deepcopy(params), max_order)
+       self._probe_params = self.DEFAULT_PROBE_PARAMS | self._probe_params | params
+   Python's `a | b` is a copy of a updated with the items of b in order. *)
+Fixpoint union (a b : pydict) : pydict :=
+  match b with
+  | [] => a
+  | (k, v) :: t => union (set k v a) t
+  end.
+
+Definition out_val (o : out) : val := VDict (map (fun kv => (fst kv, VNum (snd kv))) o).
+
+Definition default_probe_params : pydict :=
+  [("energy", VNone); ("defocus", VNone); ("semiangle_cutoff", VNone); ("soft_edges", VNum 1);
+   ("aberration_coefs", VDict [])].
+
+(* one assignment `obj.probe_params = params` on an object whose stored dictionary is st; an
+   assignment that raises leaves the object unchanged *)
+Definition assign (max_order : option nat) (st params : pydict) : result pydict :=
+  match setter max_order params with
+  | Ok o => Ok (union (union default_probe_params st) (set "aberration_coefs" (out_val o) params))
+  | ValueErr => ValueErr
+  | KeyErr => KeyErr
+  | TypeErr => TypeErr
+  end.
+
+Fixpoint assign_all (max_order : option nat) (st : pydict) (history : list pydict) : pydict :=
+  match history with
+  | [] => st
+  | p :: t => match assign max_order st p with
+              | Ok st' => assign_all max_order st' t
+              | _ => assign_all max_order st t
+              end
+  end.
+
+(* what a consumer reads: self.probe_params["aberration_coefs"].get(name, 0.0) *)
+Definition stored_coef (st : pydict) (name : string) : Q :=
+  match assoc "aberration_coefs" st with
+  | Some (VDict d) => match assoc name d with Some (VNum q) => q | _ => 0%Q end
+  | _ => 0%Q
+  end.
